@@ -16,10 +16,35 @@
 EXTENDS Naturals, Sequences, FiniteSets, TLC
 
 DIGEST == 4                       \* NUM_HASH_OUT_ELTS
+ELT_BYTES == 8                    \* a field element is written as 8 little-endian bytes
+POSEIDON_BYTES == 32              \* Hasher::HASH_SIZE of PoseidonHash (4 elements)
+KECCAK25_BYTES == 25              \* Hasher::HASH_SIZE of KeccakHash<25>
 H2(l, r) == <<"h2", l, r>>
 HN(v)    == <<"hn", v>>
 Pad(v)   == <<"id", v>>
-HashOrNoop(w, v) == IF w <= DIGEST THEN Pad(v) ELSE HN(v)
+\* Hasher::hash_or_noop: a no-op (identity embedding) iff the leaf's BYTE length fits the digest,
+\* i.e. width*8 <= HASH_SIZE - 4 elements for Poseidon but only 3 for the 25-byte Keccak digest
+HashOrNoopB(hs, w, v) == IF ELT_BYTES * w <= hs THEN Pad(v) ELSE HN(v)
+\* the symbolic state machines use the Poseidon digest size (w <= 4); the byte-level definition
+\* below (LeafDigestB) is what distinguishes the hashers and is checked in MCLeafDigest
+HashOrNoop(w, v) == HashOrNoopB(POSEIDON_BYTES, w, v)
+
+(***************************************************************************)
+(* Byte-level leaf digest.  A leaf is a sequence of elements, an element a *)
+(* sequence of ELT_BYTES bytes.  In the no-op case the digest IS the       *)
+(* leaf's bytes, zero padded to hs bytes - never truncated, because the    *)
+(* condition guarantees that they fit.  The mutant "noop_by_element_count" *)
+(* (no-op iff at most DIGEST elements, buffer resized to hs) truncates a   *)
+(* 4-element leaf under a 25-byte digest: TLC refutes it through           *)
+(* MCLeafDigest!CollisionFree / OpensOnlyCommitted.                        *)
+(***************************************************************************)
+RECURSIVE FlatBytes(_)
+FlatBytes(leaf) == IF leaf = <<>> THEN <<>> ELSE Head(leaf) \o FlatBytes(Tail(leaf))
+Resize(bs, n) == [k \in 1..n |-> IF k <= Len(bs) THEN bs[k] ELSE 0]
+LeafFits(hs, leaf, mut) ==
+  IF mut = "noop_by_element_count" THEN Len(leaf) <= DIGEST ELSE ELT_BYTES * Len(leaf) <= hs
+LeafDigestB(hs, leaf, mut) ==
+  IF LeafFits(hs, leaf, mut) THEN <<"id", Resize(FlatBytes(leaf), hs)>> ELSE <<"hn", leaf>>
 UNINIT == <<"uninit">>
 
 RECURSIVE Pow2(_)
